@@ -23,6 +23,10 @@ META = {
 
 FMT = '%{filename}|%{cmdline}|%{tid}|%{snoopy_threads}|%{login}|%{env:V}|%{username}'
 CFG_LOG = '[snoopy]\nmessage_format = ' + FMT + '\nfilter_chain = only_uid:0;exclude_uid:7,8;noop\noutput = file:@W@/log\n'
+ALLDS = ('%{cgroup:name=systemd}%{cwd}%{datetime}%{domain}%{egid}%{egroup}%{env_all}%{euid}%{eusername}%{gid}%{group}%{hostname}%{ipaddr}%{pid}%{ppid}%{rpname}%{sid}'
+         '%{snoopy_configure_command}%{snoopy_version}%{systemd_unit_name}%{tid_kernel}%{timestamp}%{timestamp_ms}%{timestamp_us}%{tty}%{tty_uid}%{tty_username}%{uid}')
+# every data source and every filter on the path (races in rarely used sources); the extra sources sit in a 2nd record field group that the oracle ignores
+CFG_ALLDS = '[snoopy]\nmessage_format = ' + FMT + '|' + ALLDS.replace('|', '') + '\nfilter_chain = exclude_spawns_of:zz;exclude_uid:5;only_root;only_tty;only_uid:0;noop\noutput = file:@W@/log\n'
 CFG_STDOUT = '[snoopy]\nmessage_format = ' + FMT + '\nfilter_chain = only_uid:0;noop\noutput = stdout\n'
 CFG_DROP = '[snoopy]\nmessage_format = ' + FMT + '\nfilter_chain = only_uid:0;only_root;exclude_uid:0;noop\noutput = file:@W@/log\n'
 
@@ -78,7 +82,7 @@ def judge(x, n, k, drop):
         s = l.decode('latin-1')
         if s.startswith('/lone|LONE|'):
             lone += 1
-            if not re.match(r'^/lone\|LONE\|\d+\|1\|lg\|envvalue\|root$', s):
+            if not re.match(r'^/lone\|LONE\|\d+\|1\|lg\|envvalue\|root(\|[^|]*)?$', s):
                 bad.append('lone_call_sees_other_thread_state')
             continue
         hit = [p for p in exp if s.startswith(p)]
@@ -87,7 +91,7 @@ def judge(x, n, k, drop):
             continue
         exp[hit[0]] += 1
         rest = s[len(hit[0]):]
-        m = re.match(r'^(\d+)\|lg\|envvalue\|root$', rest)
+        m = re.match(r'^(\d+)\|lg\|envvalue\|root(\|[^|]*)?$', rest)
         if not m or not (1 <= int(m.group(1)) <= n):
             bad.append('record_tail_wrong')
     if lone != (0 if drop else 1):
@@ -164,6 +168,7 @@ def run(ck):
         ('asan-drop-2x1', va, 'asan', False, CFG_DROP, 2, 1, 1, True),
         ('tsan-2x1', vt, 'tsan', False, CFG_LOG, 2, 1, 2, False),
         ('tsan-drop-2x1', vt, 'tsan', False, CFG_DROP, 2, 1, 1, True),
+        ('tsan-allds-2x1', vt, 'tsan', False, CFG_ALLDS, 2, 1, 1 if q else 2, False),
         # state-hashed passes: NO preemption bound; alternatives pruned on (thread positions, mutex model, registry list) - see engine/sched.py
         ('hashed-asan-2x1', va, 'asan', False, CFG_LOG, 2, 1, 'hashed', False),
         ('hashed-tsan-2x1', vt, 'tsan', False, CFG_LOG, 2, 1, 'hashed', False),
